@@ -208,7 +208,8 @@ func runC17(c *Ctx) {
 			return nil
 		}
 		ucArgs := updCalls[0].Common().Args
-		oldP, newP := isDirOf(ucArgs[1]), isDirOf(ucArgs[2])
+		// (old, new) are the last two arguments; an optional leading argument names the config's own directory
+		oldP, newP := isDirOf(ucArgs[len(ucArgs)-2]), isDirOf(ucArgs[len(ucArgs)-1])
 		okOld, okNew := false, false
 		if oldP != nil && newP != nil {
 			fromES := func(x ssa.Value) bool {
@@ -268,6 +269,43 @@ func runC17(c *Ctx) {
 					rem = ci
 				}
 			}
+		}
+		// the config's own directory is never un-watched (D33): Remove(old) only where old differs from a parameter
+		// that the loop fills with filepath.Dir of the (never re-resolved) config path
+		if rem != nil {
+			okOwn, whyOwn := false, "the old resolved directory is removed from the watcher even when it is the config file's own directory"
+			if po, ok := rem.Call.Args[1].(*ssa.Parameter); ok {
+				for _, ec := range condsDominating(rem.Block()) {
+					b, ok := ec.Cond.(*ssa.BinOp)
+					if !ok || (b.Op != token.EQL && b.Op != token.NEQ) || ec.Val != (b.Op == token.NEQ) {
+						continue
+					}
+					var other ssa.Value
+					switch {
+					case b.X == ssa.Value(po):
+						other = b.Y
+					case b.Y == ssa.Value(po):
+						other = b.X
+					}
+					pc, ok := other.(*ssa.Parameter)
+					if !ok {
+						continue
+					}
+					// the call-site argument for pc
+					for pi, fp := range upd.Params {
+						if fp != pc {
+							continue
+						}
+						arg := isDirOf(ucArgs[pi])
+						if ap, ok := arg.(*ssa.Parameter); ok && ap.Parent() == loop {
+							okOwn = true
+						} else {
+							whyOwn = "the directory compared with the old one before Remove is not filepath.Dir of the watch loop's (unresolved) config path parameter"
+						}
+					}
+				}
+			}
+			c.check(okOwn, "watch-repair", relName(upd)+"#own-dir-kept", rem.Pos(), "the old directory is un-watched only when it is not the config file's own directory", whyOwn+": after regular file -> symlink into another directory -> regular file (each by rename) the last replacement is announced only in the config's own directory, which is no longer watched - the view never converges")
 		}
 		c.check(add != nil && rem != nil && domI(add, rem), "watch-repair", relName(upd), upd.Pos(), "the new directory watch is added before the old one is removed", "directory watches are not switched add-before-remove (a change in between would be lost)")
 	}
